@@ -696,8 +696,12 @@ func init() {
 
 func init() {
 	Registry["C15"] = func(c *Ctx) {
-		c.R.Rule = "the C01/C02 history search (13 source edits, 8 workspace pre-state operations, build //... and build //b:top) run by the REAL binary with --load-outputs=minimal; the reference cache model that mode 'all' is checked against (C01/C02) must predict the executed set of every minimal-mode build as well (same commands, same success), every command that executes must observe exactly what a from-scratch build observes of its dependency outputs (//b:top records the bytes, the symlink and the exec bit it reads from //b:app's directory output, which it reaches through //b:app -> alias -> //a:lib; //b:gen runs the restored bin tool), and every output of an executed target equals the from-scratch build. Thorough mixes 'all' and 'minimal' builds inside one history. Second part: the chain workspace x->y->z plus w (output checks) in minimal mode, three no-cache-tag universes, histories of <= 4/5 operations over {edits, grog taint, destroy the checked condition, delete all outputs, build, build --enable-cache=false}, each run under load_outputs=all and under minimal: the exit status and the executed set of every build must be the same in both modes (direct lock-step oracle, also where the reference model makes no prediction), a target that must run although a result is stored (tainted / no-cache / failing check) must find its dependency outputs, the executed set must equal the reference model of mode all. `grog run //b:tool` in lock-step under both modes over the history {run, run again, delete the binary, edit the tool's input, delete binary and dependency output}: same exit status and same output of the tool. Third part (cache faults while dependency outputs are loaded): after a build, all outputs are deleted and the dependant's input is edited, then every subset (quick: size <= 3 and >= n-1) of the cache entries is removed and a minimal-mode build must exit 0 with the dependant's output identical to a from-scratch build."
+		c.R.Rule = "the C01/C02 history search (13 source edits, 8 workspace pre-state operations, build //... and build //b:top) run by the REAL binary with --load-outputs=minimal; the reference cache model that mode 'all' is checked against (C01/C02) must predict the executed set of every minimal-mode build as well (same commands, same success), every command that executes must observe exactly what a from-scratch build observes of its dependency outputs (//b:top records the bytes, the symlink and the exec bit it reads from //b:app's directory output, which it reaches through //b:app -> alias -> //a:lib; //b:gen runs the restored bin tool), and every output of an executed target equals the from-scratch build. Thorough mixes 'all' and 'minimal' builds inside one history. Second part: the chain workspace x->y->z plus w (output checks) in minimal mode, three no-cache-tag universes, histories of <= 4/5 operations over {edits, grog taint, destroy the checked condition, delete all outputs, build, build --enable-cache=false}, each run under load_outputs=all and under minimal: the exit status and the executed set of every build must be the same in both modes (direct lock-step oracle, also where the reference model makes no prediction), a target that must run although a result is stored (tainted / no-cache / failing check) must find its dependency outputs, the executed set must equal the reference model of mode all. `grog run //b:tool` in lock-step under both modes over the history {run, run again, delete the binary, edit the tool's input, delete binary and dependency output}: same exit status and same output of the tool. Third part (cache faults while dependency outputs are loaded): after a build, all outputs are deleted and the dependant's input is edited, then every subset (quick: size <= 3 and >= n-1) of the cache entries is removed and a minimal-mode build must exit 0 with the dependant's output identical to a from-scratch build. Shared dependency with lost blobs: two dependants that become ready 0.5 s apart, the dependency writes its output in two steps 1 s apart; under both modes every output equals the from-scratch bytes after the build and again after deleting all outputs and building once more."
 		c.R.Assume("lock-step is realised through the shared reference model: mode 'all' is compared with the model by C01/C02, mode 'minimal' by this check", "commands of the model workspace are deterministic")
+		if os.Getenv("VERIF_PART") == "shared-rerun" { // development aid: this part alone
+			c15SharedRerun(c)
+			return
+		}
 		// third part: cache faults while dependency outputs are being loaded (missing cache entries)
 		defer missingBlobs(c, "C15", true)
 		// ... and the schedule dimension of that: when loading a dependency's outputs fails, the restore must be
@@ -706,6 +710,8 @@ func init() {
 		// `grog run` (a build + the execution of the binary output) in lock-step under both modes
 		defer c15RunCommand(c)
 		defer c15Triangle(c)
+		// one dependency with lost blobs, two dependants that become ready at different times
+		defer c15SharedRerun(c)
 		// second part: taint / no-cache / failing output check / failures under minimal mode
 		defer chainCheck("C15", []string{"C15:"}, 4, 5, func(e *chainEngine, thorough bool) {
 			e.relabelMinimal = true
